@@ -358,5 +358,7 @@ class StochasticAndFilterDuplicatesSearcher(StochasticSearcher):
         k = "restrict_configurations"
         if k in state:
             self._restrict_configurations = state[k]
+            self._rc_returned_pos = set()
         else:
             self._restrict_configurations = None
+            self._rc_returned_pos = None
